@@ -68,6 +68,20 @@ int main()
             impl::Parameter* raw = scope.push_back(*w.ids[0], *w.types[0], ipr::Decl_position{ scope.size() });
             out = "made " + guarded([&] { return dump(as_iface(*raw)); });
          }
+         else if (c == "fundecl-states") {
+            // a function declaration keeps EITHER its own parameter list OR its mapping (definition) in the public member `data`; each of
+            // the two alternatives with its pointer not yet set: every accessor answers or refuses
+            auto& ftype = w.lex.get_function(*w.prods[1], *w.types[0]);
+            auto* fun = w.greg->declare_fun(*w.ids[3], ftype);
+            out = "fresh " + guarded([&] { return dump(as_iface(*fun)); });
+            fun->data.template emplace<0>(nullptr);
+            out += " list-unset " + guarded([&] { return dump(as_iface(*fun)); });
+            fun->data.template emplace<1>(nullptr);
+            out += " mapping-unset " + guarded([&] { return dump(as_iface(*fun)); });
+            auto* body = w.lex.make_mapping(*w.greg, Mapping_level{ 1 });
+            fun->data.template emplace<1>(body);
+            out += " mapping-set " + guarded([&] { return dump(as_iface(*fun)); });
+         }
          else out = "unknown-case";
       }
       catch (const std::logic_error&) { out += " E"; }
